@@ -43,6 +43,81 @@ theorem active_at_least_window (n cap : Nat) (hc : 0 < cap) (envs : List Env) (e
   have := (hpend hp).2.2.2.2.1 (by rw [hcap']; exact hc) (by rw [hcap']; exact hb)
   rw [hcap'] at this; exact this
 
+/-- the bound in terms of the invariant: any state satisfying `Inv`, any environment of the next call -/
+theorem at_most_cap {n : Nat} {s : State} {em : List Nat} (hI : Inv n s em) (env : Env) :
+    s.active.length ≤ s.cap ∧
+    (refill (s.cap + 1) s 0 env.budget).1.active.length ≤ s.cap ∧
+    (step s env).1.active.length ≤ s.cap ∧ (step s env).1.cap = s.cap ∧
+    (n - s.src.length) - em.length ≤ s.cap ∧
+    (n - (refill (s.cap + 1) s 0 env.budget).1.src.length) - em.length ≤ s.cap := by
+  obtain ⟨hI1, hc1, _, _, _⟩ := refill_spec n (s.cap + 1) s 0 env.budget _ hI (by omega) _ rfl
+  have hlen1 := hI1.len
+  rw [hc1] at hlen1
+  have hl := inv_lengths hI
+  have hl1 := inv_lengths hI1
+  obtain ⟨hI2, hc2, _⟩ := run_spec [env] s _ hI
+  have hstep : (run s [env]).1 = (step s env).1 := by simp [run]
+  rw [hstep] at hI2 hc2
+  have hlen2 := hI2.len
+  rw [hc2] at hlen2
+  have hlen0 := hI.len
+  generalize (refill (s.cap + 1) s 0 env.budget).1 = r at *
+  generalize (step s env).1 = s2 at *
+  refine ⟨hlen0, hlen1, hlen2, hc2, ?_, ?_⟩ <;> omega
+
+/-- **active_at_most_window.** The window is BOUNDED by the requested `w` (`VecDeque::with_capacity(w)`; the
+capacity never changes because nothing is pushed onto a full deque): for every number of tasks, every window,
+every schedule — in every reachable state, at the PEAK inside the next call (after the refill loop, before the
+head is handed out) and after that call, at most `w` tasks are in flight; and "in flight" is what an observer
+counts: tasks drawn from the source so far minus results handed out so far never exceeds `w`, whatever the
+source is willing to yield (`env.budget` arbitrary) and however often the join is re-polled with a blocked head. -/
+theorem active_at_most_window (n w : Nat) (envs : List Env) (env : Env) :
+    let s := (run (State.new n w) envs).1
+    let obs := (run (State.new n w) envs).2
+    s.cap = w ∧ s.active.length ≤ w ∧
+    (refill (s.cap + 1) s 0 env.budget).1.active.length ≤ w ∧
+    (step s env).1.active.length ≤ w ∧ (step s env).1.cap = w ∧
+    (n - s.src.length) - (items obs).length ≤ w ∧
+    (n - (refill (s.cap + 1) s 0 env.budget).1.src.length) - (items obs).length ≤ w := by
+  intro s obs
+  obtain ⟨hI, hcap, _⟩ := run_spec envs (State.new n w) [] (inv_new n w)
+  simp only [List.nil_append] at hI
+  have hcap' : s.cap = w := hcap
+  obtain ⟨a, b, c, d, e, f⟩ := at_most_cap hI env
+  have hw : s.cap ≤ w := Nat.le_of_eq hcap'
+  exact ⟨hcap', Nat.le_trans a hw, Nat.le_trans b hw, Nat.le_trans c hw, d.trans hcap', Nat.le_trans e hw, Nat.le_trans f hw⟩
+
+/-- NOT the code — the refill loop with the capacity check AFTER the push
+(`while let Ready(Some(f)) = source.poll_next() { push; if len >= capacity { break } }`): entered with a full
+deque it pushes once more, the deque reallocates and `capacity()` doubles (`VecDeque::grow`). -/
+def refillAfterPush : Nat → State → Nat → Nat → State × Nat × Nat
+  | 0, s, pulled, budget => (s, pulled, budget)
+  | fuel + 1, s, pulled, budget =>
+    if s.srcDone then (s, pulled, budget)
+    else match s.src with
+      | [] => ({ s with srcDone := true }, pulled, budget)
+      | t :: rest =>
+        if budget = 0 then (s, pulled, budget)
+        else
+          let cap' := if s.active.length = s.cap then 2 * s.cap else s.cap     -- push onto a full deque grows it
+          let s' := { s with src := rest, active := s.active ++ [.pending t], cap := cap' }
+          if s'.active.length ≥ s'.cap then (s', pulled + 1, budget - 1)
+          else refillAfterPush fuel s' (pulled + 1) (budget - 1)
+
+/-- **check_after_push_counterexample** (`decide`): window 1, two tasks, the head blocked, the source always
+willing. First poll: one task drawn by either loop. SECOND poll (any wake-up of a full window): the code's loop
+draws nothing; the check-after-push loop draws task 1 as well — 2 tasks in flight with a window of 1 — and
+the capacity is now 2, so the overrun is invisible to any comparison against `capacity()`. With window 2 and
+eight tasks three re-polls put all eight in flight. -/
+theorem check_after_push_counterexample :
+    let s1 := (refill 2 (State.new 2 1) 0 9).1
+    let t1 := (refillAfterPush 9 (State.new 2 1) 0 9).1
+    s1.active.length = 1 ∧ t1.active.length = 1 ∧
+    (refill 2 s1 0 9).1.active.length = 1 ∧
+    (refillAfterPush 9 t1 0 9).1.active.length = 2 ∧ (refillAfterPush 9 t1 0 9).1.cap = 2 ∧
+    (refillAfterPush 9 (refillAfterPush 9 (refillAfterPush 9 (refillAfterPush 9 (State.new 8 2) 0 9).1 0 9).1 0 9).1 0 9).1.active.length = 8 := by
+  decide
+
 /-- **all_active_polled_on_pending.** When a call answers `Pending`, every future of the window that
 had not completed yet was polled in that call (the head first, then the others in order), and every
 task of the window has been polled at least once by then. -/
